@@ -27,7 +27,8 @@ def load(paths):
 
 r1 = load([os.path.join(SD, f) for f in ('seed_results.jsonl', 'seed_results2.jsonl', 'seed_results3.jsonl', 'seed_results4.jsonl')])
 r2a = load([os.path.join(SD, 'seed_results_r2.jsonl')])
-r2b = load([os.path.join(SD, 'seed_results_r2b.jsonl')])
+r2b = load([os.path.join(SD, 'seed_results_r2b.jsonl'), os.path.join(SD, 'seed_results_r2c.jsonl')])
+r3 = load([os.path.join(SD, 'seed_results_r3.jsonl'), os.path.join(SD, 'seed_results_r3b.jsonl')])
 ORIGIN = {'C11-unmasked-transpose': 'pinned-tree defect (reverse of fix 3072ea0)', 'C12-raw-href': 'pinned-tree defect (reverse of fix 62c2cec)',
           'C17-color-unwrap': 'pinned-tree defect (reverse of fix 352d767)', 'C17-position-guard': 'pinned-tree defect (reverse of fix b5bc324)'}
 
@@ -75,9 +76,19 @@ for name in sorted(r2a):
     lines.append('| %s | %s | %s | %s | %s | %s |' % (name, a['property'], 'yes' if (a.get('confirmed') or (b and b.get('confirmed'))) else 'see meta',
                                                     cells(a), cells(b) if b else 'not re-run', detail(b) if b else ''))
 lines += ['', 'Round 2 totals: caught by at least one check in the first pass: %d / %d; after strengthening: %d / %d.' % (n_first, len(r2a), n_after, len(r2a))]
+lines += ['', '## Round 3 (35 changes; agents knew the mechanisms of rounds 1 and 2)', '',
+          'Run with the committed checks. 20 of these patches had been tried in a scratch worktree first and the checks strengthened (DESIGN.md 7.3 lists the',
+          'first-contact outcome of each: 4 silent misses, 10 inconclusive); the rows below are the registered quick commands against the patch applied to /repo.', '',
+          '| seeded change | breaks | confirmed | check: exit (wall s) | what the check reported |', '|---|---|---|---|---|']
+n3 = 0
+for name in sorted(r3):
+    r = r3[name]
+    n3 += any(v['exit'] == 1 for v in r['checks'].values())
+    lines.append('| %s | %s | %s | %s | %s |' % (name, r['property'], 'yes' if r.get('confirmed') else 'see meta', cells(r), detail(r)))
+lines += ['', 'Round 3 total: caught by at least one registered check: %d / %d.' % (n3, len(r3))]
 open(os.path.join(SD, 'RESULTS.md'), 'w').write('\n'.join(lines) + '\n')
 
-for recs, second in ((r1, None), (r2a, r2b)):
+for recs, second in ((r1, None), (r2a, r2b), (r3, None)):
     for name, r in recs.items():
         d = os.path.join(SD, name)
         if not os.path.isdir(d) or name in ORIGIN:
@@ -88,7 +99,7 @@ for recs, second in ((r1, None), (r2a, r2b)):
         if os.path.exists(np_):
             notes = open(np_).read()
         m = {'property': r['property'], 'origin': 'written by a fresh sub-agent given only the property text and a scratch worktree',
-             'round': 1 if second is None else 2,
+             'round': 1 if recs is r1 else (2 if recs is r2a else 3),
              'needs_to_manifest': (re.sub(r'\s+', ' ', notes)[:600] if notes else ''),
              'what_i_ran': {'confirmation_in_scratch_worktree': r.get('confirm'), 'confirmed': r.get('confirmed'),
                             'checks_with_patch_applied_to_repo': {c: {'exit': v['exit'], 'wall_s': v['wall_s'], 'violations': v['violations']} for c, v in fin['checks'].items()}},
